@@ -427,22 +427,43 @@ def isLeafChoose : Expr → Bool
   | _ => false
 
 mutual
-/-- `none` = accepted; `some cls` = the C++ throws `cls` while building or parsing. -/
-def wfNode (ctx : Ctx) (path : Path) : Expr → Option String
+/-- Exceptions raised while the tree is being *built* (constructors and
+`addChild`), in construction order (children before their parent). -/
+def buildErr : Expr → Option String
   | .choose _ _ parts _ _ _ _ =>
     if parts.eraseDups.length != parts.length then some "RuntimeException" else .none
+  | .alloc .. => .none
+  | .obj _ cs => buildErrList cs
+  | .min _ cs => buildErrList cs
+  | .max _ cs =>
+    match buildErrList cs with
+    | some e => some e
+    | .none => if !cs.all isLeafChoose then some "ExpressionConstructionException" else .none
+  | .lt _ a b =>
+    match buildErr a with
+    | some e => some e
+    | .none => buildErr b
+  | .scale _ _ _ c => buildErr c
+def buildErrList : List Expr → Option String
+  | [] => .none
+  | e :: es =>
+    match buildErr e with
+    | some err => some err
+    | .none => buildErrList es
+end
+
+mutual
+/-- `none` = accepted; `some cls` = the C++ throws `cls` while parsing. -/
+def wfNode (ctx : Ctx) (path : Path) : Expr → Option String
+  | .choose .. => .none
   | .alloc .. => .none
   | .obj .. => some "unsupported-nested-objective"
   | .min _ cs =>
     if cs.isEmpty then some "ExpressionSolutionException" else wfList ctx path 0 cs
   | .max _ cs =>
-    if !cs.all isLeafChoose then some "ExpressionConstructionException"
-    else if cs.isEmpty then some "ExpressionSolutionException"
-    else match wfList ctx path 0 cs with
-      | some e => some e
-      | .none =>
-        if (compileList ctx path 0 cs).any (fun (_, o) => o.pr.util) then .none
-        else some "ExpressionConstructionException"
+    if cs.isEmpty then some "ExpressionSolutionException"
+    else if (compileList ctx path 0 cs).any (fun (_, o) => o.pr.util) then .none
+    else some "ExpressionConstructionException"
   | .lt _ a b =>
     match wfNode ctx (0 :: path) a with
     | some e => some e
@@ -456,9 +477,13 @@ def wfList (ctx : Ctx) (path : Path) (i : Nat) : List Expr → Option String
     | .none => wfList ctx path (i + 1) es
 end
 
-def wf (ctx : Ctx) : Expr → Option String
-  | .obj _ cs => if ctx.gran == 0 then some "zero-granularity" else wfList ctx [] 0 cs
-  | _ => some "ExpressionConstructionException"
+def wf (ctx : Ctx) (e : Expr) : Option String :=
+  match buildErr e with
+  | some err => some err
+  | .none =>
+    match e with
+    | .obj _ cs => if ctx.gran == 0 then some "zero-granularity" else wfList ctx [] 0 cs
+    | _ => some "ExpressionConstructionException"
 
 /-! ### Feasibility of an assignment -/
 
